@@ -32,6 +32,59 @@ Theorem C02_save_closed : forall T s, tables_ok T -> Inv T s ->
 Proof. exact save_closed. Qed.
 Print Assumptions C02_save_closed.
 
+(** every operation keeps the invariant, whether it succeeds, is refused at once or is
+    refused after part of its work ([op_ok]: the files handed to the API have a plain
+    extension and a content type the default table does not list for bin) *)
+Theorem C02_step : forall T s o, tables_ok T -> op_ok T o -> Inv T s -> Inv T (fst (step false T s o)).
+Proof. exact step_inv. Qed.
+Print Assumptions C02_step.
+
+Theorem C02_reachable : forall T ops, tables_ok T -> Forall (op_ok T) ops ->
+  forall s, Inv T s -> Inv T (run false T s ops).
+Proof. exact run_inv. Qed.
+Print Assumptions C02_reachable.
+
+(** the property: at any point of any history, every package a save writes is Closed *)
+Theorem C02_every_save_closed : forall T ops, tables_ok T -> Forall (op_ok T) ops -> forall s, Inv T s ->
+  forall s1 ph, In (s1, Saved ph) (trace T s ops) -> Closed s1 ph.
+Proof. exact every_save_closed. Qed.
+Print Assumptions C02_every_save_closed.
+
+(** re-opening: resolving every written Target against the base URI of its source and looking
+    the name up among the members (what the loader of C01 does) gives back, for the package
+    and for every part, exactly the in-memory relationships (id, type, target part or
+    external text); the members are the reached parts, each once, under their names and
+    with their content types.  [reload_rel] is that resolution stated on the structural
+    package; that pptx.opc.package._PackageLoader performs it is C01's subject. *)
+Theorem C02_reopen : forall T s, Inv T s -> tables_ok T ->
+  map pm_pid (ph_members (save_phys T s)) = iter_pids s /\ NoDup (iter_pids s) /\
+  map (reload_rel (save_phys T s) Opc.root) (ph_prels (save_phys T s))
+    = map mem_graph (Opc.sort_by (fun a b => Opc.rid_leb (rr_id a) (rr_id b)) (st_prels s)) /\
+  forall m, In m (ph_members (save_phys T s)) ->
+    exists x, getp s (pm_pid m) = Some x /\ pm_name m = pt_name x /\
+      ct_resolve (ph_cts (save_phys T s)) (pm_name m) = Ok (pt_ct x) /\
+      map (reload_rel (save_phys T s) (pm_name m)) (pm_rels m)
+        = map mem_graph (Opc.sort_by (fun a b => Opc.rid_leb (rr_id a) (rr_id b)) (pt_rels x)).
+Proof. exact reopen_graph. Qed.
+Print Assumptions C02_reopen.
+
+(** refused calls: an image format Image.ext refuses, a layout index out of range (on
+    removal, on add_slide) leave the state as it is once prs.slides has been evaluated
+    (before that, the only effect is that evaluation, C02_step applies) *)
+Theorem C02_refused_picture_unchanged : forall T s i, st_slides s = true -> fst (step false T s (AddPictureBad i)) = s.
+Proof. exact refused_picture_bad. Qed.
+Print Assumptions C02_refused_picture_unchanged.
+
+Theorem C02_refused_remove_index_unchanged : forall T s l, snd (m_layout l s) = Err IndexErr ->
+  fst (step false T s (RemoveLayout l)) = s.
+Proof. exact refused_layout_index. Qed.
+Print Assumptions C02_refused_remove_index_unchanged.
+
+Theorem C02_refused_add_slide_index_unchanged : forall T s l, st_slides s = true -> snd (m_layout l s) = Err IndexErr ->
+  fst (step false T s (AddSlide l)) = s.
+Proof. exact refused_add_slide_index. Qed.
+Print Assumptions C02_refused_add_slide_index_unchanged.
+
 (** the decidable forms of the hypotheses are sound (the check evaluates them on every deck
     and on every state its histories reach) *)
 Theorem C02_invb_sound : forall T s, invb T s = true -> Inv T s.
@@ -132,6 +185,15 @@ Proof. apply invb_sound. vm_compute. reflexivity. Qed.
 Example C02_ex_saved :
   closedb wdeck (save_phys wT wdeck) = true /\ length (member_names (save_phys wT wdeck)) = 12.
 Proof. vm_compute. split; reflexivity. Qed.
+
+(* a history on the witness deck meets the hypotheses of C02_reachable and saves Closed at both saves *)
+Example C02_ex_history :
+  let ops := [AddSlide 0; AddPlainShape 0; SetLink WClick 0 0 [104; 58]%N; Save; AccessNotes 1; SetJump 0 0 1;
+              AddChart 2; RemoveLayout 0; AccessCoreProps; Save] in
+  Forall (op_ok wT) ops /\ invb wT (run false wT wdeck ops) = true /\
+  forallb (fun so => match snd so with Saved ph => closedb (fst so) ph | _ => true end) (trace wT wdeck ops) = true /\
+  length (filter (fun so => match snd so with Saved _ => true | _ => false end) (trace wT wdeck ops)) = 2.
+Proof. split; [repeat constructor|]. vm_compute. repeat split. Qed.
 
 (* drop_rel with two r:id references to the same relationship keeps it *)
 Example C02_ex_shared :
